@@ -84,8 +84,20 @@ def deadline_tests(ctx, f, head):
 
 def check(ctx, R):
     T = terms(ctx)
-    rio = reaches_io(ctx)
     for roles in all_roles(ctx):
+        loop_rules(ctx, R, roles, T)
+        _whole_command(ctx, R, roles, T)
+        _forwarding(ctx, R, roles, T)
+    _order(ctx, R, T)
+    _writers(ctx, R)
+    arg_rule(ctx, R, "timeouts", "ARG-timeouts", min_count=40)
+    R.assume("time.time() is the clock of both ends of each comparison; transports honour the timeout they are given (C18/C20)")
+    R.undecided("'within a small multiple of read+transport timeout' is a numeric time bound; only the presence of a deadline on every cycle is static. Behaviour for None/negative timeouts depends on run-time comparisons")
+
+
+def loop_rules(ctx, R, roles, T):
+    rio = reaches_io(ctx)
+    if True:
         tag = roles.tag
         np_funcs = {roles.packet_reader}
         n_np_loops = 0
@@ -139,13 +151,53 @@ def check(ctx, R):
                                        "an exception handler inside an I/O loop swallows the error and lets the loop go on: timeouts are retried without bound", f.loc(n.ast))
         R.count("LOOP[%s]" % tag, n_np_loops, 4)
         R.rule_counts["loops[%s]" % tag] = n_loops
-        _whole_command(ctx, R, roles, T)
-        _forwarding(ctx, R, roles, T)
-    _order(ctx, R, T)
-    _writers(ctx, R)
-    arg_rule(ctx, R, "timeouts", "ARG-timeouts", min_count=40)
-    R.assume("time.time() is the clock of both ends of each comparison; transports honour the timeout they are given (C18/C20)")
-    R.undecided("'within a small multiple of read+transport timeout' is a numeric time bound; only the presence of a deadline on every cycle is static. Behaviour for None/negative timeouts depends on run-time comparisons")
+        _await_subset(ctx, R, roles, T)
+
+
+def _await_subset(ctx, R, roles, T):
+    """A loop that awaits packets of a set E through _read_until but can only be left on a proper subset of E keeps spinning as
+    long as the device sends the other commands (each one restarts the read timeout): it needs its own deadline, unless it hands
+    every such packet to its caller (a generator that yields per cycle)."""
+    from ..util import fold_cmd_list
+    from .c04 import callee_nodes
+    ru = roles.dev["_read_until"]
+    for f in roles.dev_cls.methods.values():
+        g = ctx.cfg(f)
+        df = ctx.df(f)
+        for n, c in callee_nodes(ctx, f, ru):
+            if not n.loops:
+                continue
+            head = n.loops[-1]
+            exp = fold_cmd_list(T, f, n, ctx.cg.site(c).bind(ru).get(ru.call_params[0]))
+            if exp is None or len(set(exp)) < 2:
+                continue
+            inside = set(loop_nodes(g, head))
+            yields = [m for m in inside if any(isinstance(x, (ast.Yield, ast.YieldFrom)) for e in m.exprs() for x in ast.walk(e))]
+            if yields:
+                continue          # control returns to the caller on every cycle (drain generator; bounded by its whole-command check)
+            rt = T.term(f, n, c)
+            # commands on which the loop can be left normally
+            leave = set()
+            for (m, d, l) in loop_exit_edges(g, head):
+                have = set(df.facts(m)) | df.edge_facts(m, l)
+                for fa in have:
+                    if fa[0][0] == "eq" and fa[1] is True:
+                        for x in fa[0][1:]:
+                            for cmdb in set(exp):
+                                if ("value=%r" % cmdb) in x or cmdb.decode() in x:
+                                    leave.add(cmdb)
+            stay = set(exp) - leave
+            sub = "%s|await%s" % (f.qualname, sorted(x.decode() for x in set(exp)))
+            if not stay:
+                continue
+            dl = [d for d in deadline_tests(ctx, f, head) if _is_read_timeout(T, f, d[0], d[1]) and not d[3]]
+            ok = bool(dl) and head not in g.reach([n], avoid=[d[0] for d in dl], exc=True, edge_filter=lambda s_, d_, l_: True) or False
+            if dl:
+                # every cycle that stays in the loop passes a deadline check
+                ok = head not in g.reach([n], avoid=[d[0] for d in dl], exc=True)
+            R.check(ok, "LOOP-await", sub, "the wait for %s, during which %s packets are accepted, has its own deadline on every cycle" % (sorted(x.decode() for x in leave), sorted(x.decode() for x in stay)),
+                    "the loop awaits %s but also accepts %s without a deadline of its own: a device that keeps sending those (each within the read timeout) makes the operation spin for ever" % (
+                        sorted(x.decode() for x in leave) or "an exit", sorted(x.decode() for x in stay)), f.loc(head.ast))
 
 
 def _is_read_timeout(T, f, node, bound):
